@@ -4,6 +4,7 @@ import RV.Driver.C10
 import RV.Driver.C12
 import RV.Driver.C13
 import RV.Driver.C19
+import RV.Driver.C20
 open RV.Driver
 
 def dispatch (prop op : String) (args : List String) (impl : String) : Verdict :=
@@ -19,6 +20,7 @@ def dispatch (prop op : String) (args : List String) (impl : String) : Verdict :
   | "C13" => c13 op args impl
   | "C02" => c02 op args impl
   | "C19" => c19 op args impl
+  | "C20" => c20 op args impl
   | _ => bad s!"prop:{prop}"
 
 /-- a line is `id \t prop \t op \t arg… \t => \t impl` -/
